@@ -70,7 +70,7 @@ def _(c):
             note='one iteration of the block loop for EVERY tweak value (position below 2^96 - block, any flags, any type/level) and every block: '
                  'the block is handed out with the tweak whose position has advanced by one block and whose other fields are unchanged; afterwards only the First flag is cleared')
 def _(c):
-    from pyvc.sbytes import SBytesIO
+    if c.mode == 'sym': from pyvc.sbytes import SBytesIO
     Nb = c.case('Nb')
     t0 = c.word('tweak', 128)
     pos = t0 & mask(96)
